@@ -758,7 +758,15 @@ func gather(nodes []wNode, codecIsLong bool) wNode {
 			return makeBranch(nodes, resources)
 		}
 
-		newNodes = append(newNodes, makeBranch(nodes[i:], resources))
+		if rest := nodes[i:]; (len(rest) == 1) && (len(rest[0].children) != 0) {
+			// Don't wrap a lone branch node in a single-child branch node. That
+			// parent and child would have equal DPtrMax values and the child
+			// is written after the parent, contrary to the RAC spec's "rule
+			// out infinite loops" condition.
+			newNodes = append(newNodes, rest[0])
+		} else {
+			newNodes = append(newNodes, makeBranch(rest, resources))
+		}
 		if len(resources) != 0 {
 			resources = map[OptResource]bool{}
 		}
